@@ -194,6 +194,9 @@ pub struct Kernel {
     pub trace: Option<Vec<String>>,
     pub no_preempt: Option<usize>,
     pub ext: StdHashMap<String, u64>,
+    /// a node task that reads the wall clock can lose the CPU right after the read (the value is what nun-db
+    /// orders operations by, and nothing else between the read and its use is a scheduling point)
+    pub preempt_after_clock: bool,
     cands: Vec<usize>,
 }
 
@@ -279,6 +282,7 @@ impl Kernel {
             trace: None,
             no_preempt: None,
             ext: StdHashMap::new(),
+            preempt_after_clock: false,
             cands: Vec::new(),
         }
     }
